@@ -17,6 +17,11 @@ class C07(ProgramProperty):
             "compress_or_standardize, expand_or_standardize, compress_strict, expand_strict, format_curie. "
             "Non-trivial = some probe is recognised both as URI and as CURIE. Converters are built directly or through histories with warm-up queries, merges and a rejected call.")
 
+    def exhaustive(self, tier):
+        from .. import smallscope
+
+        return smallscope.run(self.id, tier)
+
     def gen(self, rng, tier):
         delim = rng.choice([":", ":", ":", "/", "::", "_"])
         recs = gen.records(rng, delim, patterns=False)
